@@ -109,3 +109,59 @@ class patched_executors:
 
         arim.ray.ThreadPoolExecutor, concurrent.futures.ThreadPoolExecutor = self.old
         return False
+
+
+def rot3(rng):
+    """random proper rotation matrix (product of three axis rotations)"""
+    a, b, c = rng.uniform(-np.pi, np.pi, size=3)
+    rx = np.array([[1, 0, 0], [0, np.cos(a), -np.sin(a)], [0, np.sin(a), np.cos(a)]])
+    ry = np.array([[np.cos(b), 0, np.sin(b)], [0, 1, 0], [-np.sin(b), 0, np.cos(b)]])
+    rz = np.array([[np.cos(c), -np.sin(c), 0], [np.sin(c), np.cos(c), 0], [0, 0, 1]])
+    return rz @ ry @ rx
+
+
+def generic_path(rng, numinterfaces, sizes=None, random_frames=False, flags=None, two_d=True, trace=True):
+    """A Path with `numinterfaces` interfaces shaped like an immersion inspection
+    (probe | frontwall | backwall | frontwall | grid, truncated), random point positions,
+    ray-traced. flags: optional list of (inc, out) per interface overriding the defaults."""
+    import arim
+    import arim.geometry as g
+    import arim.ray
+
+    couplant = arim.Material(1480.0, density=1000.0, state_of_matter="liquid")
+    block = arim.Material(6320.0, 3130.0, density=2700.0, state_of_matter="solid")
+    n = numinterfaces
+    sizes = sizes or [int(rng.integers(1, 5)) for _ in range(n)]
+    zs = {2: [0.0, 20e-3], 3: [-10e-3, 0.0, 20e-3], 4: [-10e-3, 0.0, 30e-3, 15e-3], 5: [-10e-3, 0.0, 30e-3, 0.0, 15e-3]}[n]
+    ifaces = []
+    for k in range(n):
+        pts = np.zeros((sizes[k], 3))
+        pts[:, 0] = np.sort(rng.uniform(-15e-3, 15e-3, size=sizes[k]))
+        pts[:, 1] = 0.0 if two_d else rng.uniform(-5e-3, 5e-3, size=sizes[k])
+        pts[:, 2] = zs[k] + (rng.uniform(-1e-3, 1e-3, size=sizes[k]) if random_frames else 0.0)
+        P = g.Points(pts, f"I{k}")
+        if random_frames:
+            ori = g.Points(np.stack([rot3(rng).T for _ in range(sizes[k])]), f"O{k}")
+        else:
+            ori = g.default_orientations(P)
+        if n == 2:
+            kind = [dict(are_normals_on_out_rays_side=True), dict(are_normals_on_inc_rays_side=True)][k]
+        else:
+            spec = [dict(are_normals_on_out_rays_side=True),
+                    dict(kind="fluid_solid", transmission_reflection="transmission", are_normals_on_inc_rays_side=False, are_normals_on_out_rays_side=True),
+                    dict(kind="solid_fluid", transmission_reflection="reflection", reflection_against=couplant, are_normals_on_inc_rays_side=False, are_normals_on_out_rays_side=False),
+                    dict(kind="solid_fluid", transmission_reflection="reflection", reflection_against=couplant, are_normals_on_inc_rays_side=True, are_normals_on_out_rays_side=True)]
+            kind = dict(are_normals_on_inc_rays_side=True) if k == n - 1 else spec[k]
+        kind = dict(kind)
+        if flags is not None:
+            kind["are_normals_on_inc_rays_side"], kind["are_normals_on_out_rays_side"] = flags[k]
+        ifaces.append(arim.Interface(P, ori, **kind))
+    if n == 2:
+        mats, modes = [block], [rng.choice(["L", "T"])]
+    else:
+        mats = [couplant] + [block] * (n - 2)
+        modes = ["L"] + [str(rng.choice(["L", "T"])) for _ in range(n - 2)]
+    path = arim.Path(tuple(ifaces), tuple(mats), tuple(modes), name="P")
+    if trace:
+        arim.ray.ray_tracing_for_paths([path])
+    return path
